@@ -26,6 +26,15 @@ impl RequestId {
     }
 }
 
+#[cfg(gufo_snmp_verif)]
+impl RequestId {
+    /// Verification hook (compiled only with `--cfg gufo_snmp_verif`):
+    /// place the generator's state (the last id handed out).
+    pub fn verif_set(&mut self, value: i64) {
+        self.0 = value;
+    }
+}
+
 #[cfg(test)]
 mod tests {
     use super::*;
